@@ -100,6 +100,8 @@ def status_task(t):
             n += 1
             distinct.add((label, di, o.key()))
             bad = judge(op, di, code, rcode, text, o, ns)
+            if bad is None and code != b"BYE" and o.leftover:
+                bad = ("unread-bytes", "%d bytes of the reply left unread" % o.leftover)
             if bad:
                 viols.append({
                     "property": "C09", "engine": "wire", "signature": ["C09", op, label, bad[0]],
@@ -146,6 +148,8 @@ def multi_task(t):
                             bad = ("exception:%s" % o.exc_type, "NO at %s raised %s" % (step, o.brief()))
                         elif o.kind == "ret" and o.value not in (False, None):
                             bad = ("no-not-failure", "NO at %s but connect returned %r" % (step, o.value))
+                        elif o.kind == "ret" and (_b(o.errmsg) != b"injected refusal" or _b(o.errcode) not in (None, b"")):
+                            bad = ("errmsg", "NO \"injected refusal\" at %s: errcode=%r errmsg=%r" % (step, o.errcode, o.errmsg))
                     if bad:
                         viols.append({"property": "C09", "engine": "wire",
                                       "signature": ["C09", "connect" + ("+starttls" if starttls else ""), "%s@%s" % (action, step), bad[0]],
@@ -184,6 +188,8 @@ def multi_task(t):
                             bad = ("exception:%s" % o.exc_type, "NO at %s raised %s" % (step, o.brief()))
                         elif o.value not in (False, None):
                             bad = ("no-not-failure", "NO at %s but renamescript returned %r" % (step, o.value))
+                        elif _b(o.errmsg) != b"injected refusal" or _b(o.errcode) not in (None, b""):
+                            bad = ("errmsg", "NO \"injected refusal\" at %s: errcode=%r errmsg=%r" % (step, o.errcode, o.errmsg))
                     if bad:
                         viols.append({"property": "C09", "engine": "wire", "signature": ["C09", "renamescript-emulated", "%s@%s" % (action, step), bad[0]],
                                       "what": bad[1], "case": {"kind": "rename", "active": active, "step": step, "action": action},
